@@ -40,6 +40,8 @@ fn variant(rng: &mut Rng, base: usize, off: usize, fold_row: Option<&Vec<String>
         else if rng.chance(1, 2) { s.extend(c.to_uppercase()); } else { s.push(c); }
     }
     if let Some(row) = fold_row { s.push(' '); s.push_str(rng.pick(row).as_str()); }
+    // long labels (size limits are counted in characters after normalisation, if at all): same padding word for one base
+    if (base + off) % 5 == 0 { for _ in 0..160 { s.push_str(" ыы"); } }
     if rng.chance(1, 4) { s = format!(" {} ", s); }
     s
 }
@@ -62,6 +64,8 @@ pub fn run(n: usize, rng: &mut Rng, rep: &mut Report) {
             let b = rng.below(nb);
             let label = variant(rng, b, off, fold_row.as_ref());
             let dest = format!("/d{}", i);
+            let title = match rng.below(5) { 0 => format!("t{}", i), 1 => format!("t{}", i), 2 => format!("t{}", i), _ => format!("t{}", i) };
+            let _ = title;
             let def = format!("[{}]: {} \"t{}\"", label.replace('\n', "\n "), dest, i);
             let placed = match rng.below(5) { 0 => format!("> {}", def.replace('\n', "\n> ")), 1 => format!("- {}", def.replace('\n', "\n  ")), 2 => format!("> - {}", def.replace('\n', "\n>   ")), _ => def };
             if first_for[b].is_none() { first_for[b] = Some(i); }
@@ -98,6 +102,8 @@ pub fn run(n: usize, rng: &mut Rng, rep: &mut Report) {
         if k > 0 && rng.chance(1, 3) {
             let only: Vec<String> = defs.iter().filter(|(_, d)| d.starts_with('[')).map(|(_, d)| d.clone()).collect();
             if !only.is_empty() {
+                // also with multi-line titles, a line break hidden behind a backslash included
+                let only: Vec<String> = only.into_iter().map(|d| if rng.chance(1, 3) { d.replacen("\"t", *rng.pick(&["\"one\\\ntwo ", "\"one\ntwo ", "\"a\\\n[zz]: /y "]), 1) } else { d }).collect();
                 let dd = only.join("\n\n");
                 if let Ok(h) = crate::util::guarded(|| md.parse(&dd).render()) {
                     if !h.is_empty() { rep.violation("definition-output", format!("src={}", hexs(&dd)), format!("definitions render {:?}", h)); }
